@@ -1958,3 +1958,61 @@ pub mod modules {
         })
     }
 }
+
+/// Configuration: file lookup, TOML loading, width heuristics, and the per-option state
+/// (`Config::verif_dump` / `Config::verif_set` are generated by `create_config!`).
+pub mod config {
+    use std::io::Error;
+    use std::path::{Path, PathBuf};
+
+    use crate::config::{Config, WidthHeuristics};
+
+    /// `get_toml_path(dir)`: the config file of one directory.
+    pub fn get_toml_path(dir: &Path) -> Result<Option<PathBuf>, Error> {
+        crate::config::verif_local::get_toml_path(dir)
+    }
+
+    /// `Config::from_toml(toml, file_path)`.
+    pub fn from_toml(toml: &str, file_path: &Path) -> Result<Config, String> {
+        crate::config::verif_local::from_toml(toml, file_path)
+    }
+
+    /// `Config::from_resolved_toml_path(dir, None, None, None)`.
+    pub fn from_resolved_toml_path(dir: &Path) -> Result<(Config, Option<PathBuf>), Error> {
+        crate::config::verif_local::from_resolved_toml_path(dir)
+    }
+
+    fn widths(h: WidthHeuristics) -> [usize; 8] {
+        [
+            h.fn_call_width,
+            h.attr_fn_like_width,
+            h.struct_lit_width,
+            h.struct_variant_width,
+            h.array_width,
+            h.chain_width,
+            h.single_line_if_else_max_width,
+            h.single_line_let_else_max_width,
+        ]
+    }
+
+    /// `WidthHeuristics::scaled(max_width)`: fn_call, attr_fn_like, struct_lit, struct_variant,
+    /// array, chain, single_line_if_else, single_line_let_else.
+    pub fn scaled(max_width: usize) -> [usize; 8] {
+        widths(WidthHeuristics::scaled(max_width))
+    }
+
+    /// `WidthHeuristics::set(max_width)`.
+    pub fn set(max_width: usize) -> [usize; 8] {
+        widths(WidthHeuristics::set(max_width))
+    }
+
+    /// `WidthHeuristics::null()`.
+    pub fn null() -> [usize; 8] {
+        widths(WidthHeuristics::null())
+    }
+
+    /// `is_nightly_channel!()`.
+    pub fn is_nightly() -> bool {
+        crate::is_nightly_channel!()
+    }
+}
